@@ -381,13 +381,71 @@ Proof.
   - discriminate.
 Qed.
 
-(* the unwrap IS reachable in the model: a read command on a fresh expression whose first speech is empty and whose
-   second application does not speak.  Whether the rules can behave like that is searched for on the library (C08). *)
+(* ---------------------------------------------------------------- after the repairs of pop_stack: no unwrap is left *)
+Lemma drop_moves_true : forall n st, snd (drop_moves n st) = true.
+Proof. induction n as [|n IH]; intro st; [reflexivity|]. cbn [drop_moves]. destruct (cs st); [reflexivity | apply IH]. Qed.
+Lemma pop_stack_true : forall st k, snd (pop_stack st k) = true.
+Proof.
+  intros st k. unfold pop_stack. destruct k; [reflexivity|]. destruct (ps st); [reflexivity|]. destruct (cs st); [reflexivity|].
+  pose proof (drop_moves_true (Datatypes.S k) (pop st)) as H. destruct (drop_moves (Datatypes.S k) (pop st)) as [st' ok]. exact H.
+Qed.
+Lemma finish_done : forall st k, snd (finish st k) = Done.
+Proof. intros st k. unfold finish. pose proof (pop_stack_true st k) as H. destruct (pop_stack st k) as [st' ok]. cbn [snd] in *. rewrite H. reflexivity. Qed.
+
+Lemma apply_rules_never_panics : forall ids root cmd k r st, (is_move cmd = false \/ ps st <> []) ->
+  snd (apply_rules ids root cmd k r st) <> Panic /\
+  (is_move cmd = false \/ ps (fst (apply_rules ids root cmd k r st)) <> []).
+Proof.
+  intros ids root cmd k r st H. unfold apply_rules.
+  destruct (negb _); [split; [discriminate | exact H]|].
+  destruct (r_err r); [split; [discriminate | exact H]|].
+  destruct (update_state cmd r st) as [st3|] eqn:E.
+  - destruct (update_state_len cmd r st st3 E) as [Hlen _].
+    assert (H3 : is_move cmd = false \/ ps st3 <> []).
+    { destruct H as [H|H]; [left; exact H | right]. intro Hn. rewrite Hn in Hlen. destruct (ps st); [congruence | cbn in Hlen; lia]. }
+    assert (Hf : snd (finish st3 k) <> Panic) by (rewrite finish_done; discriminate).
+    assert (Hf2 : is_move cmd = false \/ ps (fst (finish st3 k)) <> []).
+    { destruct H3 as [H3|H3]; [left; exact H3 | right]. unfold finish, pop_stack. destruct k; [exact H3|].
+      destruct (ps st3) as [|p t] eqn:Ep; [congruence|]. destruct (cs st3) as [|c t'] eqn:Ec; [cbn [fst]; rewrite Ep; discriminate|].
+      destruct (drop_moves (Datatypes.S k) (pop st3)) as [st' ok]. cbn [fst push ps]. discriminate. }
+    destruct (in_ids _ ids && r_speak r).
+    + destruct (r_speech_err r); [split; [discriminate | exact H3]|].
+      destruct (r_speech_empty r); [split; [discriminate | exact H3]|]. split; assumption.
+    + split; assumption.
+  - exfalso. unfold update_state in E. destruct (is_move cmd && _) eqn:M.
+    + cbn [ps] in E. destruct (ps st) eqn:Ep.
+      * apply andb_true_iff in M. destruct M as [M _]. destruct H as [H|H]; congruence.
+      * discriminate.
+    + discriminate.
+Qed.
+
+Lemma nav_loop_never_panics : forall ids root cmd outs fuel k st, (is_move cmd = false \/ ps st <> []) ->
+  snd (nav_loop ids root cmd outs k fuel st) <> Panic.
+Proof.
+  intros ids root cmd outs fuel. induction fuel as [|fuel IH]; intros k st H; [discriminate|]. cbn [nav_loop].
+  destruct (apply_rules_never_panics ids root cmd k (outs k) st H) as [A B].
+  destruct (apply_rules ids root cmd k (outs k) st) as [st' s]. cbn [fst snd] in *.
+  destruct s; try discriminate; try congruence. apply IH. exact B.
+Qed.
+
+(* EVERY command in EVERY state: no unwrap of the navigation stack can fail *)
+Lemma L_nav_never_panics : forall ids root cmd outs st, snd (nav_command ids root cmd outs st) <> Panic.
+Proof.
+  intros ids root cmd outs st. unfold nav_command. apply nav_loop_never_panics.
+  destruct (str_eqb cmd s_MoveLastLocation) eqn:E.
+  - left. apply str_eqb_eq in E. subst cmd. vm_compute. reflexivity.
+  - right. destruct (ps st) eqn:Ep; [cbn [push ps]; discriminate | rewrite Ep; discriminate].
+Qed.
+
+(* the scenario in which the unwrap was reachable before the repairs (a read command on a fresh expression whose first
+   speech is empty and whose second application does not speak; found on the library by the C08 search:
+   ToggleZoomLockUp on <mphantom>q</mphantom><msqrt>...) now completes *)
 Definition silent_then_done (k : nat) : rule_out :=
   match k with
   | O => mkout false (Some (S "r"%string)) 0 [] false true false true
   | _ => mkout false (Some (S "r"%string)) 0 [] false false false false
   end.
-Lemma L_nav_panic_reachable :
-  snd (nav_command [S "r"%string] (S "r"%string) (S "ReadCurrent"%string) silent_then_done init_state) = Panic.
-Proof. vm_compute. reflexivity. Qed.
+Lemma L_silent_first_try_completes :
+  snd (nav_command [S "r"%string] (S "r"%string) (S "ReadCurrent"%string) silent_then_done init_state) = Done /\
+  snd (nav_command [S "r"%string] (S "r"%string) (S "MoveLastLocation"%string) silent_then_done init_state) = Done.
+Proof. vm_compute. split; reflexivity. Qed.
